@@ -156,7 +156,7 @@ def run(c):
     hs, rows_for = sc.standard_histories(c, 48 if quick else 400, 120 if quick else 300)
     # besides crashes, the implementation's own segment list is checked against the geometric invariant the substr / loop
     # theorems rest on (a broken invariant without a crash = the property is no longer shown to hold: no-failing-input-found)
-    geo = lambda st, op, o: sc.seg_geometry(o)
+    geo = lambda st, op, o: sc.seg_geometry(o, contiguous=not sc.SCHEMAS.get(st.get("sid"), {}).get("dupSegments"))
     sstats = sc.session_check(c, "C01", geo, hs, rows_for, sexe, sws, "segment geometry (the invariant behind substr_in_range)",
                               report_diffs=False, monitor_no_input=True)
     gst = sc.stock_monitor_check(c, "C01", geo, [sc.gen_stock_history(c.rng, 150 if quick else 300) for _ in range(12 if quick else 200)],
